@@ -80,6 +80,8 @@ class Shapecheck:
         raw = specs.raw_params(fn["path"])
         inv.RANGE_PARAM[0] = fn["name"] in ("to_range", "get_range", "set_range")
         inv.SELF_KIND[0] = "array" if fn.get("trait_default_of", "").startswith("array::traits") else None
+        if fn.get("trait_default_of", "") == "category::spider::Spider":
+            inv.SELF_KIND[0] = "strict-oh"   # the default method is analysed at the strict implementation
         try:
             for i, p in enumerate(fn["params"]):
                 nm = param_name(p, i)
